@@ -369,6 +369,28 @@ def rule_e(prog, rep):
                 got[p_['v'].get('v')] = c[0] if c else '?'
             else:
                 got['*'] = c[0] if c else '?'
+    if not ms:
+        # `if s == "?" { Wildcard } else if s == "#" { MultiWildcard } else { Regular(s.to_owned()) }`
+        fb_ = Bindings(common, f)
+
+        def chain(e):
+            while isinstance(e, dict) and e.get('k') == 'block' and not e.get('stmts') and 'tail' in e:
+                e = e['tail']
+            if isinstance(e, dict) and e.get('k') == 'if' and 'else' in e:
+                c = e['cond']
+                if c.get('k') == 'binary' and c.get('op') == 'Eq':
+                    lit = next((x for x in (c['l'], c['r']) if x.get('k') == 'lit'), None)
+                    other = c['r'] if lit is c['l'] else c['l']
+                    if lit is not None and all(x.startswith('param(') for x in fb_.origins(other)):
+                        cs = [short(ctor_name(nd)) for nd, a in walk(e['then']) if ctor_name(nd) and 'KeySegment::' in ctor_name(nd)]
+                        got[lit['v'].get('v')] = cs[0] if cs else '?'
+                        chain(e['else'])
+                        return
+                got['!'] = 'unrecognised condition'
+            elif isinstance(e, dict):
+                cs = [short(ctor_name(nd)) for nd, a in walk(e) if ctor_name(nd) and 'KeySegment::' in ctor_name(nd)]
+                got['*'] = cs[0] if cs else '?'
+        chain(common.user_body(f).hir)
     want = {'?': 'Wildcard', '#': 'MultiWildcard', '*': 'Regular'}
     if got == want:
         rep.ok('C04.e', 'From<&str>', f.loc, '"?" -> Wildcard, "#" -> MultiWildcard, other -> Regular')
@@ -441,7 +463,17 @@ def rule_e(prog, rep):
     kp = common.fn('KeySegment::parse')
     sp = [nd for nd, a in common.walk_fn(kp) if nd.get('k') == 'call' and short(callee(nd)) == 'split']
     mp = [nd for nd, a in common.walk_fn(kp) if nd.get('k') == 'call' and short(callee(nd)) == 'map']
-    if sp and sp[0]['args'][1].get('k') == 'lit' and sp[0]['args'][1]['v'].get('v') == '/' and mp and 'KeySegment' in str(mp[0].get('ty')):
+    kb_ = Bindings(common, kp)
+    loop_form = False
+    for lp_ in [nd for nd, a in common.walk_fn(kp) if nd.get('k') == 'for']:
+        # `for segment in pattern.split('/') { segments.push(KeySegment::from(segment)) }` - every segment, unconditionally
+        pushes = [(x, a_) for x, a_ in walk(lp_['body']) if x.get('k') == 'call' and short(callee(x)) == 'push']
+        if any('split' in o for o in kb_.origins(lp_['iter'])) and len(pushes) == 1 and \
+                not [it for it in guards(pushes[0][1] + (pushes[0][0],)) if it[0] in ('if', 'match')] and \
+                any(y.get('k') == 'call' and 'KeySegment' in callee(y) and short(callee(y)) in ('from', 'into') for y, _ in walk(pushes[0][0]['args'][1])):
+            loop_form = True
+    if sp and sp[0]['args'][1].get('k') == 'lit' and sp[0]['args'][1]['v'].get('v') == '/' and \
+            ((mp and 'KeySegment' in str(mp[0].get('ty'))) or loop_form):
         rep.ok('C04.e', 'KeySegment::parse', kp.loc, 'split on "/" and convert every segment')
     else:
         rep.violation('C04.e', 'KeySegment::parse', kp.loc, 'does not split on "/" and convert each segment', key='C04.e/parse')
